@@ -13,6 +13,7 @@ import (
 	"math/big"
 	"os"
 	"runtime"
+	"runtime/debug"
 	"sort"
 	"strings"
 	"sync"
@@ -294,32 +295,32 @@ func parentHeights(n *refhdr.Network) []int64 {
 }
 
 func latticeContexts(quick bool) []latticeCtx {
-	diffs := []int64{46039386, 46039387, 100001792, 30959185800, 2 * 30959185800, 1 << 40}
-	deltas := []int64{1, 9, 10, 179, 180, 181, 239, 240, 241, 1000, 10000}
+	diffs := []int64{46039386, 100001792, 30959185800, 1 << 40}
+	deltas := []int64{1, 10, 179, 180, 239, 240, 1000, 10000}
 	if !quick {
-		diffs = append(diffs, 1, 2047, 2048, 131072, 99999999, 100000000, 100001793, 2*46039386, 1<<62)
-		deltas = append(deltas, 2, 11, 19, 20, 990, 999, 1009, 1010, 99999)
+		diffs = append(diffs, 46039387, 2*30959185800, 1, 2047, 2048, 131072, 99999999, 100000000, 100001793, 2*46039386, 1<<62)
+		deltas = append(deltas, 9, 181, 241, 2, 11, 19, 20, 990, 999, 1009, 1010, 99999)
 	}
 	var out []latticeCtx
 	for i := range refhdr.Networks {
 		n := &refhdr.Networks[i]
 		for _, ph := range parentHeights(n) {
+			// default shape and every single deviation
 			for _, d := range diffs {
 				for _, dl := range deltas {
 					out = append(out, latticeCtx{net: n.Name, parentNum: ph, parentDiff: big.NewInt(d), parentGas: DefaultGas, delta: dl})
 				}
 			}
-			// all pairs of deviations on a reduced set of contexts, with both engines, and with a parent
-			// gas limit (5001) that lets the minimum-gas-limit rule be the only one violated
+			// all pairs of deviations on a reduced set of contexts; the second engine (test mode, seal=false);
+			// a parent gas limit (5001) that lets the minimum-gas-limit rule be the only one violated
 			pd, pdl := []int64{46039386, 1 << 40}, []int64{1, 240}
 			if !quick {
 				pd, pdl = []int64{46039386, 100001792, 30959185800, 1 << 40}, []int64{1, 10, 180, 240, 1000}
 			}
 			for _, d := range pd {
 				for _, dl := range pdl {
-					for _, g := range []uint64{DefaultGas, 5001} {
-						out = append(out, latticeCtx{net: n.Name, parentNum: ph, parentDiff: big.NewInt(d), parentGas: g, delta: dl, pairs: true, tester: true})
-					}
+					out = append(out, latticeCtx{net: n.Name, parentNum: ph, parentDiff: big.NewInt(d), parentGas: DefaultGas, delta: dl, pairs: true, tester: !quick})
+					out = append(out, latticeCtx{net: n.Name, parentNum: ph, parentDiff: big.NewInt(d), parentGas: 5001, delta: dl, pairs: !quick, tester: true})
 				}
 			}
 		}
@@ -727,6 +728,9 @@ func firstErr(es []error) int {
 func probeBatch(engine consensus.Engine, c *BatchCase) string {
 	seq := c.Sequential(engine)
 	for i, e := range seq {
+		if c.Orphan && i > 0 {
+			break
+		}
 		if (e != nil) != c.Invalid[i] {
 			return fmt.Sprintf("one-by-one VerifyHeader of header %d = %s but the reference says invalid=%v", i, errStr(e), c.Invalid[i])
 		}
@@ -868,6 +872,7 @@ func replayBatch(col *collector, d *ev.ReplayDoc) {
 
 func TestCheck(t *testing.T) {
 	log.Root().SetHandler(log.DiscardHandler())
+	debug.SetGCPercent(50) // argon2id header hashes allocate their memory per call: keep the heap small and hot
 	run := ev.Start("exploration")
 	run.Rule = "one evaluation = one call of VerifyHeader / VerifyUncles / VerifyHeaders on a concrete input compared with the reference verdict; distinct_nontrivial = distinct (network, child height, first violated rule) for headers, (tree, height, set size, reference reason) for uncle sets, (network, batch length, first invalid index, deviation) for batches"
 	run.Assume("difficulty schedule: the five built-in aquahash networks (mainnet, testnet, testnet2, dev, test); HF10 (grandparent formula) is not scheduled on any built-in network and is not modelled")
